@@ -18,12 +18,18 @@ def Notifier.key : Notifier → NKey
   | .user k _ => .user k
   | .maint mk g k => .maint mk g k
 
-abbrev Hooks := Observable → List Notifier
+/-- Notifier lists per observable, as an association list (an observable that
+does not occur has no notifiers). -/
+abbrev Hooks := List (Observable × List Notifier)
 
-def Hooks.empty : Hooks := fun _ => []
+def Hooks.empty : Hooks := []
+
+def Hooks.get : Hooks → Observable → List Notifier
+  | [], _ => []
+  | (o', l) :: H, o => if o' = o then l else Hooks.get H o
 
 def Hooks.upd (H : Hooks) (o : Observable) (l : List Notifier) : Hooks :=
-  fun o' => if o' = o then l else H o'
+  (o, l) :: H.filter (fun p => p.1 != o)
 
 /-- `TraitEventNotifier.add_to`: bump the first equal notifier, else append
 with count 1 (the fresh notifier's own count is 0, so the RuntimeError arm of
@@ -64,11 +70,11 @@ def removeKey : NKey → List Notifier → Except Exc (List Notifier)
   | .maint mk g k, ns => maintRemove mk g k ns
 
 /-- `notifier.add_to(observable)`. -/
-def addItem (it : Item) (H : Hooks) : Hooks := H.upd it.1 (addKey it.2 (H it.1))
+def addItem (it : Item) (H : Hooks) : Hooks := H.upd it.1 (addKey it.2 (H.get it.1))
 
 /-- `notifier.remove_from(observable)`. -/
 def removeItem (it : Item) (H : Hooks) : Except Exc Hooks :=
-  match removeKey it.2 (H it.1) with
+  match removeKey it.2 (H.get it.1) with
   | .error e => .error e
   | .ok l => .ok (H.upd it.1 l)
 
@@ -104,7 +110,7 @@ def cntList (q : NKey) : List Notifier → Nat
   | .user k rc :: ns => (if (NKey.user k).equals q then rc else 0) + cntList q ns
   | .maint mk g k :: ns => (if (NKey.maint mk g k).equals q then 1 else 0) + cntList q ns
 
-def cnt (H : Hooks) (o : Observable) (q : NKey) : Nat := cntList q (H o)
+def cnt (H : Hooks) (o : Observable) (q : NKey) : Nat := cntList q (H.get o)
 
 /-- Number of items of a from-scratch list that sit at `o` and equal `q`. -/
 def cntItems (l : List Item) (o : Observable) (q : NKey) : Nat :=
